@@ -147,10 +147,10 @@ func runC11(b *runner.Batch) {
 					s[i] = world.Scoped(s[i].S, transaction.CustomContracts, e.w.GAS)
 				}
 			}
-			if !scopedFunded[s[0].Account()] {
-				e.w.FundGAS(s[0].Account(), 1000_0000_0000)
-				scopedFunded[s[0].Account()] = true
-			}
+			// the sender pays the fees of this transaction out of its own pocket (150 GAS of system fee are attached to
+			// every call here): topped up each time, or the ledger refuses the transaction before the contract sees it
+			e.w.FundGAS(s[0].Account(), 1000_0000_0000)
+			scopedFunded[s[0].Account()] = true
 			s[0].Sends = true
 			w = wits{accounts: map[string]bool{}, desc: w.desc + " (signing with scopes that do not reach the call)"}
 			role += "-scoped-away"
